@@ -453,6 +453,39 @@ func runC10(c *Ctx) {
 		}
 	}
 	s.checkTerminalStopsProbers(c, "terminal-stops-probers")
+	{
+		rule := c.Rule("updated-config-probes-defaulted", "the process-update operation, which accepts a configuration that did not go through the loader, reaches Probe.ValidateAndSetDefaults for the readiness and for the liveness probe of the updated configuration on every path before the configuration is compared or added")
+		up := s.apiMethod("UpdateProcess")
+		vsd := p.TryMethod("health", "Probe", "ValidateAndSetDefaults")
+		fR := p.Field("types", "ProcessConfig", "ReadinessProbe")
+		fL := p.Field("types", "ProcessConfig", "LivenessProbe")
+		if c.Check(up != nil && vsd != nil, rule, "shape", "", "UpdateProcess and ValidateAndSetDefaults found", "UpdateProcess / Probe.ValidateAndSetDefaults not found") {
+			c.Touch(up)
+			vd := p.Deep(CallOfFn("ValidateAndSetDefaults", vsd))
+			addDeep := p.Deep(MapUpdateOn("insert Processes", s.FProcesses))
+			for _, fld := range []*types.Var{fR, fL} {
+				barrier := func(in ssa.Instruction) bool {
+					call, ok := in.(*ssa.Call)
+					if !ok || !vd.MayAt(call) {
+						return false
+					}
+					for _, a := range call.Call.Args {
+						if PathOf(a).LastField() == fld {
+							return true
+						}
+					}
+					return false
+				}
+				bad := false
+				for in := range Reach(Entry(up), barrier, nil) {
+					if call, ok := in.(*ssa.Call); ok && !barrier(in) && addDeep.MayAt(call) {
+						bad = true
+					}
+				}
+				c.Check(!bad, rule, p.CanonName(fld), FirstPos(p, up), "defaulted before the configuration is used", "the updated configuration can be added without its "+fld.Name()+" having been validated and defaulted: a probe sent through the API with period/timeout/thresholds 0 runs with illegal parameters")
+			}
+		}
+	}
 	s.checkProbeFailureIsError(c, "probe-failure-is-error")
 	s.checkIncompatibleHealthChecksRejected(c, "ready-line-and-probe-rejected")
 	// every stop of a running process stops its probers first, whoever asked for the stop: the failure counter of a
@@ -610,6 +643,23 @@ func (s *Sel) checkProberLifecycle(c *Ctx, ruleID string) {
 			hcStarts = append(hcStarts, in)
 		}
 	})
+	// a restarted prober clears the flag: Store(false) precedes the re-read of the flag
+	{
+		clr := Site{Name: "stopped.Store(false)", Call: func(cc *ssa.CallCommon) bool {
+			if !sameFunc(CalleeObj(cc), store) || len(cc.Args) != 2 || PathOf(cc.Args[0]).LastField() != fStopped {
+				return false
+			}
+			b, ok := ConstBool(cc.Args[1])
+			return ok && !b
+		}}
+		reads := DirectSites(body, readFlag)
+		okClr := len(reads) > 0 && (len(DirectSites(body, clr)) > 0 || len(DirectSites(startFn, clr)) > 0)
+		if okClr && len(DirectSites(body, clr)) > 0 {
+			r := MustPrecede(body, p.Deep(clr), func(in ssa.Instruction) bool { return isOneOf(in, reads) }, nil)
+			okClr = r.OK
+		}
+		c.Check(okClr, rule, "start-clears-flag", FirstPos(p, startFn), "Start clears the stopped flag before it is re-read", "Prober.Start does not clear the stopped flag: after the first stop (every restart of the process stops its probers) the prober never starts again, so a relaunched process is never Ready and its failures are never counted")
+	}
 	okStart := len(hcStarts) > 0
 	for _, sl := range sleeps {
 		vis := Reach([]Pt{after(sl)}, p.Deep(readFlag).MustAt, nil)
